@@ -385,6 +385,61 @@ func respReleaseSite(c *cx, id string, f *eng.Fn, call *ast.CallExpr, ri int) {
 			exits = append(exits, exit{ex, nil, f.Body.Rbrace})
 		}
 	}
+	// released at most once: closing a response closes the hand-off channel,
+	// which is not idempotent (the second Close panics with "close of closed
+	// channel"). An unconditional deferred Close together with a direct Close
+	// that is reachable after the defer statement closes twice.
+	if !strings.HasPrefix(f.CalleeID(call), "xmpp.iterIQ") {
+		for _, ds := range g.Defers {
+			uncond := false
+			if l, ok := ast.Unparen(ds.Call.Fun).(*ast.FuncLit); ok {
+				uncond = uncondInLit(l)
+			} else {
+				uncond = closesR(ds.Call)
+			}
+			if !uncond {
+				continue
+			}
+			dpt, okd := g.Where(ds)
+			if !okd {
+				continue
+			}
+			var second ast.Node
+			for _, b := range g.Blocks {
+				if !b.Live {
+					continue
+				}
+				for i, nd := range b.Nodes {
+					if _, isD := nd.(*ast.DeferStmt); isD {
+						continue
+					}
+					if _, isG := nd.(*ast.GoStmt); isG {
+						continue
+					}
+					direct := false
+					ast.Inspect(nd, func(x ast.Node) bool {
+						if _, isLit := x.(*ast.FuncLit); isLit {
+							return false
+						}
+						if cc, ok := x.(*ast.CallExpr); ok {
+							if sel, ok := ast.Unparen(cc.Fun).(*ast.SelectorExpr); ok && sel.Sel.Name == "Close" && isR(sel.X) {
+								direct = true
+							}
+						}
+						return !direct
+					})
+					if direct && g.Reachable(g.After(dpt), eng.Point{B: int(b.Index), I: i}, nil, nil) && second == nil {
+						second = nd
+					}
+				}
+			}
+			why := ""
+			if second != nil {
+				why = "Close at " + c.p.Pos(second.Pos()) + " runs in addition to the deferred Close registered at " + c.p.Pos(ds.Pos()) + ": the hand-off channel is closed twice"
+			}
+			c.r.Check(id, f, what+" released once", "E-res: no direct Close of the response is reachable after an unconditional deferred Close was registered", ds.Pos(), second == nil, why)
+		}
+	}
 	nex := 0
 	for _, ex := range exits {
 		if !g.Reachable(g.After(apt), ex.pt, nil, nil) {
@@ -898,7 +953,36 @@ func handoffWithdrawn(c *cx, id string, rel, fname, queue string) {
 			if _, isGo := nd.(*ast.GoStmt); isGo {
 				return false
 			}
-			return recvQueue(nd)
+			// a receive that runs HERE: not one inside a function literal that is
+			// merely defined here; a call of a local closure whose body receives
+			// from the queue counts
+			found := false
+			ast.Inspect(nd, func(x ast.Node) bool {
+				if found {
+					return false
+				}
+				switch y := x.(type) {
+				case *ast.FuncLit:
+					return false
+				case *ast.UnaryExpr:
+					if y.Op == token.ARROW && chanClass(f, y.X, 0) == queue {
+						found = true
+					}
+				case *ast.CallExpr:
+					if idn, ok := ast.Unparen(y.Fun).(*ast.Ident); ok {
+						if v, ok := f.Info().ObjectOf(idn).(*types.Var); ok && eng.IsLocal(v) {
+							ds := g.DefsOf(v)
+							if len(ds) == 1 && ds[0].RHS != nil {
+								if l, ok := ast.Unparen(ds[0].RHS).(*ast.FuncLit); ok && recvQueue(l.Body) {
+									found = true
+								}
+							}
+						}
+					}
+				}
+				return !found
+			})
+			return found
 		}
 		ok := !g.Reachable(after, ex, completedCut, direct)
 		if !ok {
